@@ -184,3 +184,74 @@ pub proof fn lemma_gcd_scale_pow2(a: nat, b: nat, g: nat, s: nat)
         assert(ps * a == 2 * (p * a) && ps * b == 2 * (p * b) && ps * g == 2 * (p * g)) by (nonlinear_arith) requires ps == 2 * p;
     }
 }
+
+pub proof fn lemma_divides_add(d: nat, a: nat, b: nat)
+    requires divides(d, a), divides(d, b)
+    ensures divides(d, a + b)
+{
+    let k1 = choose|k: nat| a == #[trigger] (k * d);
+    let k2 = choose|k: nat| b == #[trigger] (k * d);
+    assert(a + b == (k1 + k2) * d) by (nonlinear_arith) requires a == k1 * d, b == k2 * d;
+    assert(a + b == #[trigger] ((k1 + k2) * d));
+}
+
+pub proof fn lemma_divides_sub(d: nat, a: nat, b: nat)
+    requires divides(d, a), divides(d, b), a >= b
+    ensures divides(d, (a - b) as nat)
+{
+    let k1 = choose|k: nat| a == #[trigger] (k * d);
+    let k2 = choose|k: nat| b == #[trigger] (k * d);
+    let r = (a - b) as nat;
+    if k1 < k2 {
+        assert(k1 * d + d <= k2 * d) by (nonlinear_arith) requires k1 + 1 <= k2;
+        assert(d == 0);
+        assert(k1 * d == 0) by (nonlinear_arith) requires d == 0;
+        assert(k2 * d == 0) by (nonlinear_arith) requires d == 0;
+        assert(r == #[trigger] (0nat * d)) by (nonlinear_arith) requires r == 0;
+    } else {
+        assert(r == (k1 - k2) * d) by (nonlinear_arith) requires r == a - b, a == k1 * d, b == k2 * d, k1 >= k2;
+        assert(r == #[trigger] (((k1 - k2) as nat) * d));
+    }
+}
+
+/// one Euclid step: x = q*y + z  ==>  gcd(y, z) == gcd(x, y)
+pub proof fn lemma_gcd_divstep(x: nat, y: nat, q: nat, z: nat, g: nat)
+    requires x == q * y + z
+    ensures is_gcd(y, z, g) <==> is_gcd(x, y, g)
+{
+    assert forall|d: nat| divides(d, y) && divides(d, z) implies divides(d, x) by {
+        lemma_divides_mul(d, y, q);
+        lemma_divides_add(d, q * y, z);
+    }
+    assert forall|d: nat| divides(d, x) && divides(d, y) implies divides(d, z) by {
+        lemma_divides_mul(d, y, q);
+        lemma_divides_sub(d, x, q * y);
+    }
+    if is_gcd(y, z, g) {
+        assert forall|d: nat| divides(d, x) && divides(d, y) implies #[trigger] divides(d, g) by { assert(divides(d, z)); }
+    }
+    if is_gcd(x, y, g) {
+        assert forall|d: nat| divides(d, y) && divides(d, z) implies #[trigger] divides(d, g) by { assert(divides(d, x)); }
+    }
+}
+
+/// gcd(x, 0) == x
+pub proof fn lemma_gcd_zero_right(n: nat)
+    ensures is_gcd(n, 0, n)
+{
+    lemma_divides_self(n);
+}
+
+pub proof fn lemma_divides_one(d: nat)
+    requires divides(d, 1)
+    ensures d == 1
+{
+    let k = choose|k: nat| 1 == #[trigger] (k * d);
+    assert(k == 1 && d == 1) by (nonlinear_arith) requires k * d == 1;
+}
+
+pub proof fn lemma_one_divides(a: nat)
+    ensures divides(1, a)
+{
+    assert(a == #[trigger] (a * 1nat)) by (nonlinear_arith);
+}
